@@ -1038,6 +1038,12 @@ class S:
     def __ge__(a, b):
         return a._cmp(b, ">=")
 
+    def __getitem__(self, idx):
+        # a 0-d pick of an object array is the entry itself; NumPy scalars accept (), ..., None and combinations
+        a = onp.empty((), dtype=object)
+        a[()] = self
+        return a[idx]
+
     def __eq__(a, b):
         b = S.L(b)
         if b is NotImplemented:
@@ -1206,6 +1212,12 @@ class CS:
 
     def sqrt(a):
         raise Unsupported("complex sqrt")
+
+    def __getitem__(self, idx):
+        # a 0-d pick of an object array is the entry itself; NumPy scalars accept (), ..., None and combinations
+        a = onp.empty((), dtype=object)
+        a[()] = self
+        return a[idx]
 
     def __eq__(a, b):
         b = CS.L(b)
